@@ -35,7 +35,7 @@ ANCHORS = [
     "acnportal.acnsim.analysis:energy_cost",
     "acnportal.acnsim.analysis:demand_charge",
 ]
-REQUIRED = ["same_instant_in_several_zones", "vector_lookups_of_over_1000_periods", "cost_checks_under_another_tariff_in_the_same_process", "sub_second_instants", "vector_lookups_with_periods_of_days_or_months", "lookups_judged", "vector_lookups", "interface_price_vectors", "cost_checks", "regime:wrapped-season",
+REQUIRED = ["runs_whose_peak_current_and_peak_power_fall_in_different_periods_billed_at_a_nonzero_demand_rate", "same_instant_in_several_zones", "vector_lookups_of_over_1000_periods", "cost_checks_under_another_tariff_in_the_same_process", "sub_second_instants", "vector_lookups_with_periods_of_days_or_months", "lookups_judged", "vector_lookups", "interface_price_vectors", "cost_checks", "regime:wrapped-season",
             "regime:weekend", "regime:weekday", "regime:leap-day"]
 BUDGET_S = {"quick": 240, "thorough": 3000}
 EXHAUSTIVE = {"quick": "all 14 calendar types x every day x boundary instants x 5 files",
@@ -68,6 +68,11 @@ def cases(seed, tier):
         out.append({"kind": "vector", "file": rng.choice(FILES), "seed": rng.randrange(1 << 30)})
     for i in range(nsim):
         out.append({"kind": "sim", "file": rng.choice(FILES), "seed": rng.randrange(1 << 30)})
+    # corpus: per file, ports of unequal voltage used one after the other, so that the period of the highest aggregate CURRENT and
+    # the period of the highest aggregate POWER (what the demand charge bills) are different periods
+    for f in FILES:
+        for k in range(2 if tier == "quick" else 10):
+            out.append({"kind": "sim", "file": f, "seed": rng.randrange(1 << 30), "unequal_ports": True})
     return out
 
 
@@ -300,6 +305,21 @@ def _run_sim(case, obs):
     tar, orc = _load_maybe_user(name, rng, obs)
     d = gen.scenario(rng, sched="scripted", kinds=("EVSE", "FR"), noise_p=0.0, nmax=4, sess_max=5, horizon=15,
                      period=rng.choice([1, 5, 7.5, 15, 60, 60, 1440, 1500, 2880]))
+    if case.get("unequal_ports"):
+        lo_v, hi_v = rng.choice([(120, 277), (208, 480), (120, 240)])
+        a_lo, a_hi = rng.choice([(32, 16), (30, 20), (80, 40)])
+        ev_ = lambda mx: {"t": "EVSE", "max": mx, "min": 0}
+        big_ = {"t": "ideal", "cap": 1e6, "init": 0, "maxp": 1e4}
+        n1, n2 = rng.randint(1, 4), rng.randint(1, 4)
+        first_low = rng.random() < 0.5
+        d["network"] = {"stations": [{"id": "low", "evse": ev_(a_lo), "voltage": lo_v, "phase": 0}, {"id": "high", "evse": ev_(a_hi), "voltage": hi_v, "phase": 0}],
+                        "constraints": [], "tol": None}
+        t_lo, t_hi = ((0, n1), (n1, n1 + n2)) if first_low else ((n2, n2 + n1), (0, n2))
+        d["sessions"] = [{"id": "a", "station": "low", "arrival": t_lo[0], "departure": t_lo[1], "requested": 1e5, "est_dep": t_lo[1], "battery": big_},
+                         {"id": "b", "station": "high", "arrival": t_hi[0], "departure": t_hi[1], "requested": 1e5, "est_dep": t_hi[1], "battery": big_}]
+        d["recompute"] = []
+        d["scheduler"] = {"kind": "scripted", "mr": 1, "seed": 1, "t0": 0, "mode": "full"}
+        d.pop("int_type", None), d.pop("odd_ids", None)
     year = rng.choice(_years())
     d["start"] = [year, rng.randint(1, 12), rng.randint(1, 28), rng.choice([0, 8, 12, 18, 21, 23]), rng.choice([0, 15, 30, 45])]
     if rng.random() < 0.4:
@@ -347,6 +367,9 @@ def _run_sim(case, obs):
     dc_ok = lambda got_, peak_: any(abs(got_ - r_ * peak_) <= 1e-9 * max(1.0, abs(r_ * peak_)) for r_ in dc_rates)
     if len(dc_rates) > 1:
         obs.ev("runs_spanning_two_demand_rates")
+    amps = [float(sim.charging_rates[:, k].sum()) for k in range(T)]
+    if max(power) > 0 and power[int(np.argmax(amps))] < max(power) * (1 - 1e-6) and any(r_ != 0 for r_ in dc_rates):
+        obs.ev("runs_whose_peak_current_and_peak_power_fall_in_different_periods_billed_at_a_nonzero_demand_rate")
     for label, kw in (("signals", {}), ("explicit", {"tariff": tar})):
         c = acnsim.energy_cost(sim, **kw)
         dch = acnsim.demand_charge(sim, **kw)
